@@ -373,7 +373,7 @@ def strategy(quick):
     ds = st.fixed_dictionaries({"k": st.just("ds"), "i": st.just(0), "shape": shape, "out": outcome, "sds": st.sampled_from([False] * 5 + [True])})
     bad = st.fixed_dictionaries({"k": st.just("bad"), "obj": st.sampled_from(["str", "int", "list", "bytes", "tuple"])})
     empty = st.fixed_dictionaries({"k": st.just("empty"), "obj": st.sampled_from(["none", "emptyds", "zero", "emptystr"])})
-    codes = [0x0000, 0x0000, 0x0000, 0xB000, 0xA701, 0xA702, 0xA900, 0xAA04, 0xC000, 0xC123, 0x0122, 0xFE00, 0xFE00, 0xA801, 0x1234, 0xB001, 0x0001, 0x0107, 0x0110, -1, 0x10000]
+    codes = [0x0000, 0x0000, 0x0000, 0xB000, 0xB000, 0xB000, 0xFE00, 0xA701, 0xA702, 0xA900, 0xAA04, 0xC000, 0xC123, 0x0122, 0xFE00, 0xFE00, 0xA801, 0x1234, 0xB001, 0x0001, 0x0107, 0x0110, -1, 0x10000]
     status = st.fixed_dictionaries(
         {"k": st.just("status"), "code": st.sampled_from(codes), "ds": st.sampled_from(["none", "none", "list", "nolist", "bad"]), "sds": st.sampled_from([False, False, True])}
     )
@@ -391,13 +391,22 @@ def strategy(quick):
                 s["i"] = i
                 if svc == "get" and s["out"][0] == "raise":
                     s["out"] = ["noresp", 0]
+        consuming = sum(1 for s in steps if s["k"] in ("ds", "bad"))
+        if n[0] == "rel":
+            n = min(6, max(0, consuming + n[1]))
+        else:
+            n = n[1]
         op = {"svc": svc, "msg_id": msg_id, "n": n, "steps": steps}
         if svc == "move":
             op["dest"] = dest
         return op
 
     ood = st.sampled_from(["3", 2.5, None, "abc", -1, 70000, True])
-    n = weighted((24, st.sampled_from([1, 2, 3, 4, 5, 6, 1, 2, 3, 4, 2, 3, 0])), (1, ood))
+    n = weighted(
+        (14, st.tuples(st.just("rel"), st.sampled_from([0, 0, 0, 1, 1, 2, 3, -1, -1, -2]))),  # relative to the results yielded
+        (6, st.tuples(st.just("abs"), st.sampled_from([0, 1, 2, 3, 4, 5, 6]))),
+        (1, st.tuples(st.just("ood"), ood)),
+    )
     msg_id = st.one_of(st.sampled_from([1, 5, 0, 65535, 65530]), st.integers(0, 65535))
     dest = st.sampled_from(["ok"] * 27 + ["none", "unest", "raise"])
     return st.tuples(
